@@ -141,6 +141,22 @@ def make_configs(r, n):
                      ['--strategy', st, '-j', '2'] + list(om),
                      {'strategy': st, 'jobs': 2, 'outmode': list(om),
                       'n': f'Q{k}', 'compare': {}}))
+    # the failure is triggered by what the reader cannot represent (a file
+    # cut off inside its last command, a stray closing parenthesis): no
+    # candidate reproduces it, nothing is accepted - and then there is no
+    # output file, or it holds a text the command accepted
+    cut = ('(set-logic QF_UF)\n(declare-const a Bool)\n'
+           '(declare-const b Bool)\n(assert (or a b))\n(check-sat)\n'
+           '(assert (and a (or b')
+    stray = ('(set-logic QF_UF)\n(declare-const a Bool)\n(assert a))\n'
+             '(check-sat)\n')
+    for k, (text, st, j, om) in enumerate((
+            (cut, 'ddmin', 1, ()), (stray, 'hybrid', 2, ('--pretty-print', )),
+            (cut, 'hierarchical', 2, ()), (stray, 'ddmin', 2, ()))):
+        cfgs.append((text, {'mode': 'unbalanced'},
+                     ['--strategy', st, '-j', str(j)] + list(om),
+                     {'strategy': st, 'jobs': j, 'outmode': list(om),
+                      'n': f'U{k}', 'compare': {}}))
     return cfgs
 
 
@@ -159,9 +175,7 @@ def judge(rep, items):
         S.trace_violations(rep, it, CLAUSES)
         if r.out_text is None:
             continue
-        wrote = any(e['ev'] == 'write' for e in r.events)
-        if not wrote:
-            continue
+        # (whatever wrote it: the file is there)
         rep.nontrivial(sig)
         ot = runs.out_tokens(r)
         accepted = [c for c in r.cmdlog if c['verdict'] and c['toks'] == ot]
